@@ -708,3 +708,36 @@ def ill_conditioned(cb, impl, rel, name="cond", trials=4, eps=1e-13):
             elif not close(a, b, rel / 10):
                 return True
     return False
+
+
+_MT_PROBES = [0]
+
+
+def multi_thread_filter(cb, dis, out=None, limit=8):
+    """Disagreements between the implementation run with several threads and the (sequential) model: the property allows
+    differences "up to floating-point summation order", which regret matching can amplify where a cumulative regret is
+    zero up to rounding.  The first disagreeing operation is traced back to its solve; if that solve used >= 2 threads,
+    thread_difference_explained decides (one-ulp perturbation of the model, another schedule of the model of the
+    multi-threaded solver, or a cancelled cumulative regret no later than the first budget at which the k-thread run
+    leaves the one-thread run of the implementation itself)."""
+    import re
+    first = None
+    for kind, text in dis:
+        m = re.match(r"op (\d+) \((solve|named|info)\)", text)
+        if not m:
+            continue
+        j = int(m.group(1))
+        while j >= 0 and not (isinstance(cb.ops[j], dict) and cb.ops[j].get("op") == "solve"):
+            j -= 1
+        if j >= 0 and int(cb.ops[j].get("threads", 1)) >= 2:
+            first = j
+        break
+    if first is None or _MT_PROBES[0] >= limit:
+        return dis
+    _MT_PROBES[0] += 1
+    ok, why = thread_difference_explained(cb, first, 1e-9, name="condmt_%s" % cb.cid)
+    if ok:
+        if out is not None:
+            out.count("multi_thread_summation_order_differences_not_judged")
+        return [(k, t) for k, t in dis if k not in ("solve", "named", "info")]
+    return dis
